@@ -227,6 +227,12 @@ func runC12(e *core.Env) {
 			minute = obs.NearMidnight(minute) // where "24 hours ago" and "yesterday" part ways
 		}
 		clock := obs.ClockAt(today, minute, 0)
+		if i%2 == 0 && len(d.Doc.Recs) > 0 {
+			caseID := total*12 + i
+			e.Begin(caseID, []byte(fmt.Sprintf("today=%s overlapping range clauses\n%s", today, d.Text)))
+			c12Overlapping(e, r, d, f, clock)
+			e.End(caseID)
+		}
 		for v := 0; v < 12; v++ {
 			caseID := i*12 + int64(v)
 			var q query
@@ -520,6 +526,93 @@ func c12Check(e *core.Env, r *core.Rand, d *gen.Out, f string, inFiles []string,
 	// today and print --with-totals once per file
 	if v == 0 {
 		c12Today(e, r, d, f, today, minute, clock, w)
+	}
+}
+
+// c12Overlapping: several date-range clauses at once (a period together with --before / --after / --since / --until that
+// reach beyond it). Which clause wins is not this property's subject and no reference selection is used: whatever klog
+// selects, the rows of `report` (with and without --fill) must add up to the report's own grand total and to `klog total`
+// with the same flags.
+func c12Overlapping(e *core.Env, r *core.Rand, d *gen.Out, f string, clock timeT) {
+	rd := d.Doc.Recs[r.Intn(len(d.Doc.Recs))].Date
+	var q query
+	switch r.Intn(4) {
+	case 0:
+		q.Period = fmt.Sprintf("%04d", rd.Y)
+		q.PeriodSince, q.PeriodUntil = ref.PeriodBounds(ref.PYear, rd)
+	case 1:
+		q.Period = fmt.Sprintf("%04d-Q%d", rd.Y, ref.Quarter(rd.M))
+		q.PeriodSince, q.PeriodUntil = ref.PeriodBounds(ref.PQuarter, rd)
+	default:
+		q.Period = fmt.Sprintf("%04d-%02d", rd.Y, rd.M)
+		q.PeriodSince, q.PeriodUntil = ref.PeriodBounds(ref.PMonth, rd)
+	}
+	if q.PeriodSince-70 < ref.MinDay || q.PeriodUntil+70 > ref.MaxDay {
+		return
+	}
+	lo, hi := ref.DateFromDays(q.PeriodSince-r.PickInt(1, 7, 35, 65)), ref.DateFromDays(q.PeriodUntil+r.PickInt(1, 7, 35, 65))
+	switch r.Intn(6) {
+	case 0:
+		q.Before = &hi
+	case 1:
+		q.After = &lo
+	case 2:
+		q.Before, q.After = &hi, &lo
+	case 3:
+		q.Until = &hi
+	case 4:
+		q.Since = &lo
+	case 5:
+		q.Before, q.Since = &hi, &lo
+	}
+	fa, _, ok := buildFilterArgs(q)
+	if !ok {
+		return
+	}
+	agg := r.Pick("d", "w", "m", "q", "y")
+	tres := runRO(e, &cli.Total{FilterArgs: fa, DecimalArgs: util.DecimalArgs{Decimal: true}, WarnArgs: util.WarnArgs{NoWarn: true}, NoStyleArgs: util.NoStyleArgs{NoStyle: true}, InputFilesArgs: util.InputFilesArgs{File: files(f)}}, 1, "", "", clock)
+	if tres.Panic != nil || tres.Err != nil {
+		return // (an unacceptable combination is C13's subject)
+	}
+	to, perr := parseTotalOutput(tres.Out)
+	if perr != nil {
+		return
+	}
+	for _, fill := range []bool{false, true} {
+		w := map[string]any{"text": d.Text, "view": fmt.Sprintf("report -a %s fill=%v %s", agg, fill, q.String()), "clock": clock.Format("2006-01-02T15:04"), "klog_total_with_the_same_flags": to.Total}
+		res := runRO(e, &cli.Report{AggregateBy: agg, Fill: fill, FilterArgs: fa, DecimalArgs: util.DecimalArgs{Decimal: true}, WarnArgs: util.WarnArgs{NoWarn: true}, NoStyleArgs: util.NoStyleArgs{NoStyle: true}, InputFilesArgs: util.InputFilesArgs{File: files(f)}}, 1, "", "", clock)
+		if res.Panic != nil {
+			e.Violation("report-panic: "+res.Panic.Site(), res.Panic.Value, w)
+			return
+		}
+		if res.Err != nil {
+			e.Violation("report-fails", fmt.Sprintf("%s fails where `klog total` with the same flags works: %s", w["view"], res.Err.Error()), w)
+			return
+		}
+		w["report"] = res.Out
+		if strings.TrimSpace(res.Out) == "" {
+			if to.Total != "0" {
+				e.Violation("rows-do-not-add-up", fmt.Sprintf("%s prints nothing, `klog total` with the same flags = %s", w["view"], to.Total), w)
+				return
+			}
+			continue
+		}
+		rows, grand, rerr := parseReport(res.Out, agg, false, rd.Y)
+		if rerr != nil {
+			e.Count("overlapping_clause_reports_not_decoded", 1)
+			continue
+		}
+		sum := 0
+		for _, row := range rows {
+			if len(row.values) > 0 {
+				sum += row.values[0]
+			}
+		}
+		if sum != grand[0] || strconv.Itoa(grand[0]) != to.Total {
+			e.Violation("rows-do-not-add-up", fmt.Sprintf("%s: rows add up to %d, grand total %d, `klog total` with the same flags %s", w["view"], sum, grand[0], to.Total), w)
+			return
+		}
+		e.Count("overlapping_clause_reports_adding_up", 1)
 	}
 }
 
